@@ -13,7 +13,7 @@
    [q_err q = false] = its Err() is nil. Cancelled queries are not modelled (C14 is about queries that
    run to their end); the row predicate of the query is taken as "every row" (it filters both
    sides alike). *)
-From BS Require Import Model.MetaStores Proofs.MetaStoresProofs.
+From BS Require Import Model.MetaStores Proofs.MetaStoresProofs Proofs.FsMetaProofs.
 From Coq Require Import List Bool Arith.
 Import ListNotations.
 
@@ -49,18 +49,35 @@ Theorem C14_mem_reports_error :
 Proof. exact mem_sched_err. Qed.
 Print Assumptions C14_mem_reports_error.
 
-(* C14_fs_no_overlap_partial. The intended positive statement for FileSystemDataStore as MetaStore,
+(* FileSystemDataStore as MetaStore, histories without merges (queries x flushes x failed flushes,
+   every interleaving): the non-atomic scan is harmless when files only appear.
+
+   This is C14_fs_no_overlap_partial. The intended restricted statement,
 
      forall ls s i q, mrun FsMeta m0 ls = Some s -> nth_error (s_queries s) i = Some q ->
        q_done q = true -> q_err q = false -> q_overlap q = false ->
        NoDup (q_got q) /\ incl (q_acked0 q) (q_got q) /\ incl (q_got q) (s_ingested s)
 
-   ([q_overlap q = false]: no merge was running at any moment of the query) is NOT proved here: it
-   needs a second invariant family for the non-atomic scan. It is exercised by the correspondence
-   (every FS run without a merge overlapping the query must satisfy the property predicate). *)
+   ([q_overlap q = false]: no merge was running at any moment of the query; merges before and after
+   it are allowed) is proved here only for histories that contain no merge step at all; the general
+   form needs the invariant to be carried across completed merges as well. The correspondence
+   exercises the general form (every FS run whose query no merge overlaps must satisfy the predicate). *)
+Theorem C14_fs_no_merge_partial : forall ls s i q,
+  forallb no_merge ls = true -> mrun FsMeta m0 ls = Some s -> nth_error (s_queries s) i = Some q ->
+  q_done q = true -> q_err q = false ->
+  NoDup (q_got q) /\ incl (q_acked0 q) (q_got q) /\ incl (q_got q) (s_ingested s).
+Proof. exact fs_no_merge_consistent. Qed.
+Print Assumptions C14_fs_no_merge_partial.
 
 (* non-vacuity of C14_mem: a query overlapping a flush and a whole merge finishes with a nil error *)
 Example C14_nonvacuous :
   exists s q, mrun MemStore m0 mem_ok = Some s /\ nth_error (s_queries s) 0 = Some q /\
     q_done q = true /\ q_err q = false /\ q_overlap q = true /\ q_got q = [1; 2] /\ s_acked s = [1; 2; 3].
 Proof. exact mem_ok_run. Qed.
+
+(* non-vacuity of C14_fs_no_merge_partial: the scan lists a reservation that is published before it
+   is parsed; the query returns the acknowledged rows once, plus the new file's rows *)
+Example C14_fs_nonvacuous :
+  exists s q, forallb no_merge fs_ok = true /\ mrun FsMeta m0 fs_ok = Some s /\ nth_error (s_queries s) 0 = Some q /\
+    q_done q = true /\ q_err q = false /\ q_acked0 q = [1; 2] /\ q_got q = [3; 1; 2].
+Proof. exact fs_ok_run. Qed.
